@@ -44,7 +44,11 @@ func VerifC18OracleNSTRoundTrip() {
 	deposited := make([]bool, len(verifNSTStakers))
 	steps := verifrt.Param("steps", 3)
 	for t := 0; t < steps; t++ {
-		s := verifrt.Choice(nm("step%d_staker", t), len(verifNSTStakers))
+		s := verifrt.Choice(nm("step%d_staker", t), len(verifNSTStakers)+1)
+		if s == len(verifNSTStakers) {
+			// no operation: histories shorter than `steps` (e.g. ending with every staker gone)
+			continue
+		}
 		if !deposited[s] {
 			verifrt.Assume(k.UpdateNSTValidatorListForStaker(ctx, keeper.NSTETHASSETID, verifNSTStakers[s], "0xaa", unit) == nil)
 			deposited[s] = true
